@@ -64,7 +64,7 @@ func forkChoice(prefix string, n int) int {
 	// returns k in [0,n) by a chain of fresh boolean forks
 	for k := 0; k < n-1; k++ {
 		b := newInput(freshName(prefix), term.Bool)
-		if Branch(b) {
+		if branchFresh(b) {
 			return k
 		}
 	}
